@@ -74,6 +74,25 @@ func (g *gen) attrs(label string) types.Attributes {
 	return out
 }
 
+// richAttrs: most keys present (providers, attestations) so that requirements are often covered
+func (g *gen) richAttrs(label string) types.Attributes {
+	r := g.w.R
+	var out types.Attributes
+	for _, k := range []string{"region", "tier", "gpu"} {
+		if !r.Bool(70, label+".has") {
+			continue
+		}
+		var cands []types.Attribute
+		for _, a := range attrUniverse {
+			if a.Key == k {
+				cands = append(cands, a)
+			}
+		}
+		out = append(out, cands[r.Choose(len(cands), label+".v")])
+	}
+	return out
+}
+
 func (g *gen) version() []byte {
 	g.vctr++
 	h := sha256.Sum256([]byte(fmt.Sprintf("version-%d-%d", g.w.Height, g.vctr)))
@@ -93,7 +112,9 @@ var unitPrices = []int64{1, 2, 3, 5, 7, 10, 1000, 10000000}
 func (g *gen) groupSpec(name string) dtypes.GroupSpec {
 	r := g.w.R
 	gs := dtypes.GroupSpec{Name: name}
-	gs.Requirements.Attributes = g.attrs("grp.req")
+	if r.Bool(45, "grp.hasreq") {
+		gs.Requirements.Attributes = g.attrs("grp.req")
+	}
 	auds := g.w.ActorsOf("auditor")
 	if len(auds) > 0 && r.Bool(35, "grp.signed") {
 		for _, a := range auds {
@@ -141,16 +162,16 @@ func (g *gen) dseqFor(owner string, wantExisting bool) uint64 {
 
 func (g *gen) deposit(min int64, label string) sdk.Coin {
 	r := g.w.R
-	switch r.Choose(8, label) {
-	case 0, 1, 2:
+	switch r.Weighted([]int{8, 3, 2, 2, 1, 1}, label) {
+	case 0:
 		return sdk.NewInt64Coin(Denom, min)
-	case 3:
+	case 1:
 		return sdk.NewInt64Coin(Denom, min+int64(1+r.Choose(12, label+".extra")))
-	case 4:
+	case 2:
 		return sdk.NewInt64Coin(Denom, min*2+3)
-	case 5:
+	case 3:
 		return sdk.NewInt64Coin(Denom, min*10)
-	case 6:
+	case 4:
 		if min > 1 {
 			return sdk.NewInt64Coin(Denom, min-1)
 		}
@@ -376,7 +397,7 @@ func (g *gen) createProvider() *Op {
 	if p == nil || r.Bool(10, "cp.any") {
 		p = g.anyActor("cp.actor")
 	}
-	msg := ptypes.NewMsgCreateProvider(p.Addr, "https://"+p.Name+".example.com", g.attrs("cp.attrs"))
+	msg := ptypes.NewMsgCreateProvider(p.Addr, "https://"+p.Name+".example.com", g.richAttrs("cp.attrs"))
 	if r.Bool(3, "cp.baduri") {
 		msg.HostURI = "http://insecure"
 	}
@@ -388,7 +409,7 @@ func (g *gen) updateProvider() *Op {
 	if g.w.R.Bool(8, "up.any") {
 		p = g.anyActor("up.actor")
 	}
-	msg := ptypes.NewMsgUpdateProvider(p.Addr, "https://"+p.Name+".example.org", g.attrs("up.attrs"))
+	msg := ptypes.NewMsgUpdateProvider(p.Addr, "https://"+p.Name+".example.org", g.richAttrs("up.attrs"))
 	return &Op{Kind: "UpdateProvider", Msg: msg, Required: p}
 }
 
@@ -398,7 +419,7 @@ func (g *gen) signAttrs() *Op {
 		a = g.anyActor("sa.actor")
 	}
 	p := g.actor("provider", "sa.prov")
-	msg := &atypes.MsgSignProviderAttributes{Owner: p.Bech, Auditor: a.Bech, Attributes: g.attrs("sa.attrs")}
+	msg := &atypes.MsgSignProviderAttributes{Owner: p.Bech, Auditor: a.Bech, Attributes: g.richAttrs("sa.attrs")}
 	return &Op{Kind: "SignProviderAttributes", Msg: msg, Required: a}
 }
 
@@ -588,6 +609,9 @@ func (g *gen) NextOp() *Op {
 	}
 	op.Signer = op.Required
 	op.Gas = 2000000
+	if op.Kind == "BoundaryDeployment" {
+		op.Gas = 200000000 // 21 groups must not fail for lack of gas
+	}
 	if pct := g.bias["fault.wrongsigner"]; pct > 0 && r.Bool(pct, "fault.wrongsigner") {
 		other := g.anyActor("fault.wrongsigner.who")
 		if other != op.Required {
